@@ -58,6 +58,10 @@ MultiDir(l) == Cardinality(DirsOfLang(l)) > 1
 OneDirectionPerScript == D.ltr \cap D.rtl = {} /\ D.ltr \cap D.ttb = {} /\ D.rtl \cap D.ttb = {}
 AllDirs == {"LTR", "RTL", "TTB"}
 
+(* <<direction>> when (l, s, r) is one of the CLDR layout locales, else <<>>    *)
+CldrOf(l, s, r) == LET n == KeyText(<<l, s, r>>) IN
+    IF \E p \in LayoutLocales : p[1] = n THEN << (CHOOSE p \in LayoutLocales : p[1] = n)[2] >> ELSE <<>>
+
 (* what C14 allows for an identifier; cldr = <<>> or <<direction>> when the   *)
 (* identifier is one of the CLDR layout locales                               *)
 AllowedDir(l, s, r, likelyOn, cldr) ==
